@@ -169,3 +169,53 @@ func VP_C12_V1_k4()            { vpC12V1(4, 2, 2, 2, true, false) }
 func VP_C12_V1_k4_smallcache() { vpC12V1(4, 2, 2, 1, false, false) }
 func VP_C12_V1_k2_reap()        { vpC12V1(2, 2, 2, 2, false, true) }
 func VP_C12_V1_k3_reap()        { vpC12V1(3, 3, 3, 3, false, true) }
+
+// vpGateApp: the application's CheckTx answer takes time: each call yields to the other submitters
+// (a handshake on a channel) before it answers.
+type vpGateApp struct {
+	vpApp
+	turn chan struct{}
+}
+
+func (a *vpGateApp) CheckTxSync(req abci.RequestCheckTx) (*abci.ResponseCheckTx, error) {
+	a.turn <- struct{}{} // blocks until the harness lets this answer through
+	return &abci.ResponseCheckTx{Code: abci.CodeTypeOK, GasWanted: 1}, nil
+}
+
+// C12 (concurrent submissions, v1): three submitters hand in A, B and A again while the application is
+// slow; the harness releases the answers in an arbitrary order; the cache holds one transaction only.
+// Whatever the interleaving, the pool never holds a transaction twice.
+func VP_C12_V1_Concurrent() {
+	cfg := config.DefaultMempoolConfig()
+	cfg.Size, cfg.CacheSize = 4, 1
+	app := &vpGateApp{turn: make(chan struct{})}
+	txmp := NewTxMempool(log.NewNopLogger(), cfg, app, 1)
+	done := make(chan int, 3)
+	submit := func(i int, tx types.Tx, peer uint16) {
+		go func() {
+			_ = txmp.CheckTx(tx, nil, mempool.TxInfo{SenderID: peer})
+			done <- i
+		}()
+	}
+	order := vp.Choice("submission-order", 2)
+	if order == 0 {
+		submit(0, vpTxs[0], 1)
+		submit(1, vpTxs[1], 2)
+		submit(2, vpTxs[0], 3)
+	} else {
+		submit(0, vpTxs[0], 1)
+		submit(2, vpTxs[0], 3)
+		submit(1, vpTxs[1], 2)
+	}
+	vp.Settle() // every submitter is now waiting for the application (or was refused by the cache)
+	for released := 0; released < 3; released++ {
+		select {
+		case <-app.turn:
+			vp.Settle()
+		default:
+		}
+	}
+	vp.Settle()
+	vpInvariant(txmp, cfg)
+	vp.Reach("submitted")
+}
